@@ -10,8 +10,8 @@ import sys
 from .. import rt
 
 
-class InjectedInterrupt(BaseException):
-    """Asynchronous abort (KeyboardInterrupt-like: not an Exception subclass)."""
+class InjectedInterrupt(KeyboardInterrupt):
+    """Asynchronous abort: a KeyboardInterrupt (Ctrl-C) arriving at an arbitrary source line."""
 
 
 class InjectedError(Exception):
